@@ -3,7 +3,6 @@ package c04
 import (
 	"fmt"
 	"math"
-	"math/rand"
 	"runtime"
 	"sort"
 	"strings"
@@ -99,6 +98,8 @@ func runConcLane(c *evid.Case) {
 
 	var mu sync.Mutex // guards ops and the released lists
 	var ops []*cop
+	var snap []cop // stable copy taken after the concurrent phase
+	stopped := false
 	var lclock int64
 	violated := false
 	viol := func(kind, sig, detail string, extra map[string]any) {
@@ -106,7 +107,7 @@ func runConcLane(c *evid.Case) {
 			return
 		}
 		violated = true
-		wit := map[string]any{"mode": mode, "operations": ops}
+		wit := map[string]any{"mode": mode, "operations": snap}
 		for k, v := range extra {
 			wit[k] = v
 		}
@@ -121,6 +122,10 @@ func runConcLane(c *evid.Case) {
 			runtime.Gosched()
 		}
 		mu.Lock()
+		if stopped && g >= 0 {
+			mu.Unlock()
+			return
+		}
 		ops = append(ops, o)
 		km, sp := w.km, w.sp
 		mu.Unlock()
@@ -267,7 +272,7 @@ func runConcLane(c *evid.Case) {
 			pool = blkPool(0)
 		}
 		for g := 0; g < n; g++ {
-			plans = append(plans, seqFrom(pool[:len(pool)-3+rng.Intn(4)], 1))
+			plans = append(plans, seqFrom(pool, 1))
 		}
 	default:
 		for sh := 0; sh < nShares; sh++ {
@@ -311,8 +316,12 @@ wait:
 			break wait
 		case <-tick.C:
 			if signerDeadlocked() {
-				// give in-flight independent calls a moment to return, then stop waiting
-				time.Sleep(20 * time.Millisecond)
+				// no new step may start; calls in flight either return or run into the frozen signer within
+				// milliseconds (every path takes the wallet lock or the signer's map lock)
+				mu.Lock()
+				stopped = true
+				mu.Unlock()
+				time.Sleep(150 * time.Millisecond)
 				deadlocked = true
 				break wait
 			}
@@ -332,11 +341,18 @@ wait:
 
 	// ---- snapshot, oracle over what was released --------------------------------------------------------
 	mu.Lock()
-	snap := make([]cop, len(ops))
+	stopped = true
+	snap = make([]cop, len(ops))
 	for i, o := range ops {
 		snap[i] = *o
 	}
 	mu.Unlock()
+	if deadlocked {
+		// the frozen goroutines keep the old signer alive; cut its path to the (shared) store
+		defer func() {
+			w.fdb.setInner(deadDB{})
+		}()
+	}
 	released := func(kind string, sh int) []cop {
 		var l []cop
 		for _, o := range snap {
@@ -423,7 +439,7 @@ wait:
 	c.Count("conc_conflicting_request_pairs_overlapped", int64(conflPairsOverlapped))
 
 	// ---- audit after a restart (also the way out of a frozen signer) ----------------------------------------
-	if !violated {
+	if !violated && !deadlocked {
 		mu.Lock()
 		w.km, w.sp = nil, nil
 		err := w.newSigner()
@@ -497,5 +513,4 @@ wait:
 	if c.Idx == 0 && c.Index < 2 {
 		c.Sample(map[string]any{"lane": "conc", "mode": mode, "deadlocked": deadlocked, "operations": snap})
 	}
-	_ = rand.Int
 }
